@@ -23,7 +23,8 @@ impl TypeFilter {
     ) -> Result<Instruction, Error> {
         let array_type = iterator.return_type();
         let var_type = Type::from(var_type);
-        if !array_type.is_iterator() {
+        // the resulting iterator needs a value of var_type for its end marker
+        if !array_type.is_iterator() || Variable::of_type(&var_type).is_none() {
             return Err(Error::CannotDo2(array_type, BinOperator::Filter, var_type));
         }
         Ok(Self { iterator, var_type }.into())
